@@ -1,4 +1,12 @@
-"""C15 -- the compiled model evaluator returns true residuals and Jacobian (Python front end vs C++ stack machine)."""
+"""C15 -- the compiled model evaluator returns true residuals and Jacobian (Python front end vs C++ stack machine).
+
+Techniques (DESIGN 2b).  The Python side is analysed by symbolic path enumeration (T2, sa/symx.py) and AST patterns (T1).  The C++ side
+is NOT parsed or interpreted: sa/cxx.py extracts `const int NAME = n;` and the `if (ndx == NAME) {...}` branches by regular expressions
+on comment-stripped text, and each branch's whitespace-normalised text is compared with a fixed template (`res=a+b`, `::pow(a,b)` ..);
+sa/cint.py is not used here.  Rules emitted: R-C15-1, -2, -3, -4, -5, -7, -8, -9, -10, -11 (there is no R-C15-6); see EXPLANATION.
+Bounded (T3) parts: sign() on 8 and InequalityOperator.evaluate on 14 sample points (R-C15-2); the arithmetic overloads with `other`
+only at 2.5, 7, 0, 1, 0.0, 1.0 (R-C15-3); numpy-scalar probes 2.5 / 3 with a hand-written type table (R-C15-11).
+"""
 import ast
 import re
 
@@ -14,15 +22,25 @@ CPP = "wntr/sim/aml/evaluator.cpp"
 HPP = "wntr/sim/aml/evaluator.hpp"
 
 EXPLANATION = (
-    "Agreement of sibling implementations: OperationEnum (Python) vs the const-int opcode table (C++); every opcode emitted by an Operator class "
-    "has exactly one branch in the C++ stack machine _evaluate and vice versa; per opcode, the C++ branch's arity, operand (pop) order and result "
-    "expression agree with the emission order of get_rpn (extracted by abstract interpretation over the leaf/non-leaf cases) and with the Python "
-    "operation; every operator's reverse-mode rule diff_down adds der * d(operation)/d(operand) (sympy differentiation of the operator's own "
-    "operation); _increment_K/_decrement_K touch only K's own leaf map; every leaf incremented on registration is recorded in the set the "
-    "removal decrements; the type dispatch of Model.__delattr__ mirrors __setattr__. Decides symbolic agreement, not floating-point behaviour.")
+    "R-C15-1 (T1 sibling tables; C++ side by regex on the source text): OperationEnum values equal the C++ const-int opcodes, every emitted opcode "
+    "has exactly one _evaluate branch and vice versa; a throw for unknown opcodes is present. R-C15-2 (T2 symbolic execution of get_rpn "
+    "over all leaf/non-leaf operand cases and of the unary operation(); C++ branches compared as normalised TEXT with fixed templates; sign / "
+    "inequality only on 8 / 14 sample points, T3): operands are emitted in constructor order then the opcode, the C++ branch pops in reverse order "
+    "and computes the same operation. R-C15-3 (T2; overloads with `other` at a few concrete probes, T3): diff_down adds der * d(operation)/d(operand) "
+    "(sympy differentiation of its own operation); forward/reflected overloads keep operand order, 0/1 short-cuts are identities. "
+    "R-C15-4 (mostly AST pattern on local and attribute names; the reference count per path by T2): _increment_K/_decrement_K touch only K's own "
+    "leaf map; leaves incremented on registration are recorded for removal. R-C15-5 (AST pattern: `type(val) <op> X` compares "
+    "only): Model.__delattr__ mirrors __setattr__. R-C15-7 (T2 over class x operand kind; 'folded' = substring '.operation(' in the result): only "
+    "Float with native/Float operands folds eagerly. R-C15-8 (AST pattern + get_rpn events): merged operator lists are de-duplicated, get_rpn leaves "
+    "operand programs unchanged. R-C15-9 (T1, CFG must-pass; store found by its text): the Leaf.value setter always reaches self._c_obj.value = val. "
+    "R-C15-10 (T2 on both leaf states): evaluate() returns what the value property returns. R-C15-11 (T2 path signatures at "
+    "concrete numpy-scalar probes, hand-written type table, T3): numpy scalars take the same paths as python numbers. "
+    "Decides symbolic / textual agreement, not floating-point behaviour.")
 RULE_TEXT = "one instance = one opcode / operator class / operand / bookkeeping site"
 ASSUMPTIONS = ["the SWIG wrapper passes vectors unchanged; memory safety and the CSR index arithmetic of set_structure are not decided",
-               "C++ edits only take effect after rebuilding the extension; the sources are what is analysed"]
+               "C++ edits only take effect after rebuilding the extension; the sources are what is analysed",
+               "the C++ stack machine is read by regular expressions and compared with fixed branch templates; a semantically equal branch in another spelling is reported, a different one hidden in a helper is not seen",
+               "R-C15-2 (sign, inequality), R-C15-3 (overloads) and R-C15-11 are decided on the sample points / probe values named in the module only"]
 
 BIN_CPP = {"add": "{a}+{b}", "sub": "{a}-{b}", "mul": "{a}*{b}", "div": "{a}/{b}", "pow": "::pow({a},{b})"}
 UN_CPP = {"abs": "std::abs({a})", "exp": "::exp({a})", "log": "::log({a})", "negation": "-{a}", "sin": "::sin({a})", "cos": "::cos({a})", "tan": "::tan({a})",
